@@ -437,6 +437,30 @@ pub fn dump_mir(tcx: TyCtxt<'_>) -> J {
     let mut out = Vec::new();
     for owner in tcx.hir_body_owners() {
         let kind = tcx.def_kind(owner);
+        if matches!(kind, DefKind::Const { .. } | DefKind::AssocConst { .. } | DefKind::Static { .. }) {
+            // initialisers of named constants and statics (tables, flag constants, vocabularies): the MIR used for
+            // compile-time evaluation; generic associated consts are skipped
+            if tcx.generics_of(owner.to_def_id()).count() == 0 || matches!(kind, DefKind::Const { .. } | DefKind::Static { .. }) {
+                let body: &mir::Body<'_> = tcx.mir_for_ctfe(owner.to_def_id());
+                out.push(dump_body(tcx, owner, body));
+                let path = def_path(tcx, owner.to_def_id());
+                for (i, pb) in tcx.promoted_mir(owner.to_def_id()).iter_enumerated() {
+                    let j = dump_body(tcx, owner, pb);
+                    if let J::Obj(mut fields) = j {
+                        for f in fields.iter_mut() {
+                            if f.0 == "path" {
+                                f.1 = J::s(format!("{}::{{promoted#{}}}", path, i.as_usize()));
+                            }
+                            if f.0 == "kind" {
+                                f.1 = J::s("Promoted");
+                            }
+                        }
+                        out.push(J::Obj(fields));
+                    }
+                }
+            }
+            continue;
+        }
         if !matches!(kind, DefKind::Fn | DefKind::AssocFn | DefKind::Closure) {
             continue;
         }
